@@ -397,7 +397,7 @@ class World:
 
     def trace(self, tid):
         return {"id": tid, "kind": self.kind, "cap": self.scen["cap"], "qmax": self.scen.get("qmax", 0),
-                "nr": max(self.nreq, 1), "pl": self.ad.pl, "log": self.log}
+                "nr": max(self.nreq, 1), "pl": self.ad.pl, "full": getattr(self, "full", True), "log": self.log}
 
 
 # ---------------------------------------------------------------------------
